@@ -5,7 +5,6 @@ import os
 import threading
 
 META = {
-    "disabled": True,
     "level": "model_checking",
     "text": "TLC exhaustively checks a specification of the broadcast channel shaped like channel.go / broadcast_channel.go (Send with "
             "atomic sequence numbers, deliver as snapshot plus one non-blocking send per handler, Recv / cancel / removeHandler for "
